@@ -32,6 +32,13 @@ witness):
   WI<j> watch-fires   o.param.watch(cb, ['x']); o.x = v            -> cb called once with new == v
   GI<j> governs       p = o.param['x']; p.bounds = (500, 600)      -> o.x = 550 accepted, o.x = 5 rejected
   WK<k> watch-fires   K.param.watch(cb, ['x']); K.x = v            -> cb called once with new == v
+
+Parameter-type dimension (``xtype=``): the same histories over hierarchies in which ``x`` is a NON-Dynamic
+parameter -- String, Boolean, List(instantiate=False), Selector -- instead of a Number (the Number family
+is "Dynamic": values()/repr/serialization read it through another branch of get_value_generator).  All
+operations, clauses and probes are the same with values of the type (Boolean: the value is toggled); the
+governs probe uses ``p.constant = True`` -> ``o.x = v`` raises TypeError instead of bounds.  ``Pq`` (a new
+name, type independent) is left out of these alphabets.
 """
 import json
 import logging
@@ -66,26 +73,59 @@ HOWS = ('getitem', 'iter', 'contains')
 NAMES = ('name', 'x', 'y', 'q')
 
 
+# non-Dynamic parameter types for ``x``: (declaration template, value template); n = a small distinct integer
+XTYPES = {
+    'String': ("param.String(%s)", "'v%d'"),
+    'Boolean': ("param.Boolean(%s)", None),                    # values: toggled, see xval
+    'List': ("param.List(%s, instantiate=False)", "[%d]"),
+    'Selector': ("param.Selector(default=%s, objects=list(range(1000)))", "%d"),
+}
+XTYPE_ORDER = (None, 'String', 'Boolean', 'List', 'Selector')
+
+
 def configs():
     out = []
     for shape in ('single', 'chain2', 'chain3', 'fork'):
         for redecl in ((False,) if shape == 'single' else (False, True)):
             out.append({'shape': shape, 'redecl': redecl})
+    for xtype in XTYPE_ORDER[1:]:
+        for shape in ('single', 'chain2', 'fork'):
+            for redecl in ((False,) if shape == 'single' else (False, True)):
+                out.append({'shape': shape, 'redecl': redecl, 'xtype': xtype})
     return out
 
 
 def cfg_text(cfg):
-    return 'shape=%s redecl=%s' % (cfg['shape'], 'B' if cfg['redecl'] else 'none')
+    return 'shape=%s redecl=%s%s' % (cfg['shape'], 'B' if cfg['redecl'] else 'none',
+                                     ' xtype=%s' % cfg['xtype'] if cfg.get('xtype') else '')
+
+
+def xval(cfg, n, current=None):
+    """source text of the value number ``n`` of x's type (``current``: expression of the present value,
+    used by Boolean, whose 'new value' is the other one)"""
+    xt = cfg.get('xtype')
+    if xt is None:
+        return '%d' % n
+    if xt == 'Boolean':
+        return '(not %s)' % current if current else repr(bool(n % 2))
+    return XTYPES[xt][1] % n
+
+
+def xdecl(cfg, value_src, number_kw=''):
+    xt = cfg.get('xtype')
+    if xt is None:
+        return 'param.Number(%s%s)' % (value_src, number_kw)
+    return XTYPES[xt][0] % value_src
 
 
 def class_source(cfg):
     src = ''
     for cname, base in SHAPES[cfg['shape']]:
         if base is None:
-            src += ('class A(param.Parameterized):\n    x = param.Number(1, bounds=(0, 1000))\n'
-                    "    y = param.String('s')\n")
+            src += ('class A(param.Parameterized):\n    x = %s\n'
+                    "    y = param.String('s')\n" % xdecl(cfg, xval(cfg, 1), ', bounds=(0, 1000)'))
         elif cname == 'B' and cfg['redecl']:
-            src += 'class B(%s):\n    x = param.Number(2)\n' % base
+            src += 'class B(%s):\n    x = %s\n' % (base, xdecl(cfg, xval(cfg, 2)))
         else:
             src += 'class %s(%s):\n    pass\n' % (cname, base)
     return src
@@ -96,6 +136,8 @@ def alphabet(cfg):
     ops = []
     for k in range(n):
         ops += ['R%d' % k, 'S%d' % k, 'Pq%d' % k, 'Px%d' % k, 'N%d' % k]
+        if cfg.get('xtype'):
+            ops.remove('Pq%d' % k)
     for j in range(MAXI):
         ops += ['I%d' % j, 'IR%d' % j]
     return ops
@@ -162,15 +204,15 @@ def op_source(op, step, cfg, how):
         return {'getitem': "%s.param['x']" % cn, 'iter': 'list(%s.param)' % cn,
                 'contains': "'x' in %s.param" % cn}[how]
     if kind == 'S':
-        return '%s.x = %d' % (cn, 10 + step)
+        return '%s.x = %s' % (cn, xval(cfg, 10 + step, '%s.x' % cn))
     if kind == 'Pq':
         return "%s.param.add_parameter('q', param.Number(%d))" % (cn, 20 + step)
     if kind == 'Px':
-        return "%s.param.add_parameter('x', param.Number(%d, bounds=(0, 1000)))" % (cn, 30 + step)
+        return "%s.param.add_parameter('x', %s)" % (cn, xdecl(cfg, xval(cfg, 30 + step, '%s.x' % cn), ', bounds=(0, 1000)'))
     if kind == 'N':
         return 'insts.append(%s())' % cn
     if kind == 'I':
-        return 'insts[%d].x = %d' % (i, 40 + step)
+        return 'insts[%d].x = %s' % (i, xval(cfg, 40 + step, 'insts[%d].x' % i))
     if kind == 'IR':
         return "insts[%d].param['x']" % i
     raise AssertionError(op)
@@ -178,11 +220,18 @@ def op_source(op, step, cfg, how):
 
 PROBE_SRC = {
     'WI': ("got = []\n"
+           "v = {v}\n"
            "w = insts[{i}].param.watch(lambda *ev, _g=got: _g.extend(e.new for e in ev), ['x'])\n"
-           "insts[{i}].x = {v}\n"
+           "insts[{i}].x = v\n"
            "insts[{i}].param.unwatch(w)\n"
-           "probe_ok = (got == [{v}] and insts[{i}].x == {v})\n"
-           "probe_detail = 'after insts[{i}].param.watch(cb, [\"x\"]); insts[{i}].x = {v}: callback received %r' % (got,)\n"),
+           "probe_ok = (got == [v] and insts[{i}].x == v)\n"
+           "probe_detail = 'after insts[{i}].param.watch(cb, [\"x\"]); insts[{i}].x = %r: callback received %r' % (v, got)\n"),
+    'GIc': ("p = insts[{i}].param['x']\n"
+            "p.constant = True\n"
+            "v = {v}\n"
+            "try:\n    insts[{i}].x = v; rej = False\nexcept TypeError:\n    rej = True\n"
+            "probe_ok = (rej is True)\n"
+            "probe_detail = 'insts[{i}].param[\"x\"].constant = True: insts[{i}].x = %r rejected with TypeError: %r' % (v, rej)\n"),
     'GI': ("p = insts[{i}].param['x']\n"
            "p.bounds = (500, 600)\n"
            "acc = rej = None\n"
@@ -191,16 +240,21 @@ PROBE_SRC = {
            "probe_ok = (acc is True and rej is True)\n"
            "probe_detail = 'insts[{i}].param[\"x\"].bounds = (500, 600): x = 550 accepted: %r, x = 5 rejected: %r' % (acc, rej)\n"),
     'WK': ("got = []\n"
+           "v = {v}\n"
            "w = {c}.param.watch(lambda *ev, _g=got: _g.extend(e.new for e in ev), ['x'])\n"
-           "{c}.x = {v}\n"
-           "probe_ok = (got == [{v}] and {c}.x == {v})\n"
-           "probe_detail = 'after {c}.param.watch(cb, [\"x\"]); {c}.x = {v}: callback received %r' % (got,)\n"),
+           "{c}.x = v\n"
+           "probe_ok = (got == [v] and {c}.x == v)\n"
+           "probe_detail = 'after {c}.param.watch(cb, [\"x\"]); {c}.x = %r: callback received %r' % (v, got)\n"),
 }
 
 
-def probe_source(op, step):
+def probe_source(op, step, cfg):
     kind, i = _split(op)
-    return PROBE_SRC[kind].format(i=i, c='ABC'[i], v={'WI': 700, 'GI': 0, 'WK': 800}[kind] + step)
+    cur = '%s.x' % 'ABC'[i] if kind == 'WK' else 'insts[%d].x' % i
+    v = xval(cfg, {'WI': 700, 'GI': 600, 'WK': 800}[kind] + step, cur)
+    if kind == 'GI' and cfg.get('xtype'):
+        kind = 'GIc'
+    return PROBE_SRC[kind].format(i=i, c='ABC'[i], v=v)
 
 
 CHECK_SRC = '''
@@ -325,7 +379,7 @@ def run_history(cfg, how, ops, hits=None):
         step = len(done)
         done.append(pr)
         try:
-            exec(_compiled(probe_source(pr, step)), env)
+            exec(_compiled(probe_source(pr, step, cfg)), env)
             ok, det = env['probe_ok'], env['probe_detail']
         except Exception as e:
             ok, det = False, '%s raised %s: %s' % (pr, type(e).__name__, e)
@@ -395,7 +449,7 @@ def shrink(cfg, how, ops, clause):
         for shape in ('single', 'chain2', 'chain3', 'fork'):
             if len(SHAPES[shape]) <= used or len(SHAPES[shape]) >= len(SHAPES[cfg['shape']]):
                 continue
-            c2 = {'shape': shape, 'redecl': cfg['redecl'] and shape != 'single'}
+            c2 = dict(cfg, shape=shape, redecl=cfg['redecl'] and shape != 'single')
             if ok(c2, how, ops):
                 cfg = c2
                 changed = True
@@ -438,7 +492,7 @@ def replay_script(cfg, how, ops, clause, at, witness):
     for step, op in enumerate(ops):
         if _split(op)[0] in ('WI', 'GI', 'WK'):
             lines.append('# probe step %d: %s' % (step, op))
-            lines.append(probe_source(op, step))
+            lines.append(probe_source(op, step, cfg))
         else:
             lines.append(op_source(op, step, cfg, how) + '        # step %d: %s' % (step, op))
     what = clause.split('/')[-1]
@@ -458,6 +512,12 @@ def replay_script(cfg, how, ops, clause, at, witness):
 def plan(tier, cfg):
     """-> (max length enumerated exhaustively (all lengths 1..L), [(length, sample size)], hows)"""
     n = len(SHAPES[cfg['shape']])
+    if cfg.get('xtype'):
+        if tier == 'thorough':
+            return {1: (5, []), 2: (4, [(5, 3000)]), 3: (3, [(4, 3000), (5, 2000)])}[n]
+        if tier == 'smoke':
+            return {1: (3, []), 2: (3, []), 3: (2, [(3, 100)])}[n]
+        return {1: (3, [(4, 100)]), 2: (3, [(4, 150), (5, 100)]), 3: (2, [(3, 200), (4, 100)])}[n]
     if tier == 'thorough':
         return {1: (5, [(6, 8000)]), 2: (4, [(5, 15000), (6, 5000)]), 3: (3, [(4, 10000), (5, 8000)])}[n]
     if tier == 'smoke':
@@ -554,7 +614,8 @@ def _run(tier, seed):
     B = Bounded(
         'C13',
         rule='one case = (hierarchy of <= 3 fresh classes: single / chain2 / chain3 / fork, B optionally '
-             'redeclaring x; namespace-read style) x one history over {R<k> read namespace of class k, S<k> '
+             'redeclaring x; type of x: Number (Dynamic family; all shapes) or a non-Dynamic type String / Boolean / '
+             'List / Selector (single, chain2, fork; no Pq); namespace-read style) x one history over {R<k> read namespace of class k, S<k> '
              'class-level set, Pq<k>/Px<k> add_parameter of a new / an existing name on class k, N<k> create '
              'instance, I<j> instance set, IR<j> read instance namespace}; every clause is evaluated after the '
              'LAST step only, for every class and instance (listed, identity vs inspect.getattr_static, default, '
@@ -585,7 +646,8 @@ def _run(tier, seed):
         for s in samples:
             B.sample(s)
     B.evaluations = total
-    fails.sort(key=lambda f: (len(f[3]), f[0], len(SHAPES[f[1]['shape']]), f[1]['redecl'], HOWS.index(f[2]), f[3]))
+    fails.sort(key=lambda f: (len(f[3]), f[0], XTYPE_ORDER.index(f[1].get('xtype')), len(SHAPES[f[1]['shape']]), f[1]['redecl'],
+                              HOWS.index(f[2]), f[3]))
     seen = {}
     budget = {}
     nshrinks = 0
